@@ -618,7 +618,7 @@ PermBase(i) ==
     ELSE IF i % 18 = 5 THEN RandomElement(SlowRewGames)
     ELSE IF i % 18 = 11 THEN RandomElement(BackChainGames)
     ELSE IF i % 18 = 2 THEN RandomElement(FinalDeadEndGames)
-    ELSE IF i % 36 = 13 THEN RandomElement(KeyCollideGames)
+    ELSE IF i % 36 = 10 THEN RandomElement(KeyCollideGames)
     ELSE IF i % 18 = 14 THEN RandomElement(ZeroWGames)
     ELSE IF i % 9 = 8 THEN RandomElement(IF i % 2 = 0 THEN TieUp ELSE TieGames)
     ELSE IF i % 3 = 0 THEN RandomElement(DeadGames)
